@@ -294,6 +294,20 @@ func runCoreScripted(seed uint64, n int, out *Out) {
 			c.endBlock()
 			c.endBlock()
 		},
+		// 6: KF-C05-negative-payout-halt — consequence of the doubled carry: odds 101, liquidity 51,100,150,200,250,300,2,1000:
+		//    the carry walks to -2.68 and the seventh part gets stake -3 for a promised profit of 2; when the bettor
+		//    wins, BettorWins pays stake+profit = -1 and the end-blocker panics ("negative coin amount")
+		func(h int) {
+			c := newCoreScript(out, h, 2, 0, 2, 1, 0, 1000, 100)
+			m := c.market(2)
+			for i, l := range []int64{51, 100, 150, 200, 250, 300, 2, 1000} {
+				c.deposit(m, 1+i%5, l)
+			}
+			c.wager(m, 6, 0, "101", 12)
+			c.endBlock()
+			c.resolve(m, 5, 0)
+			c.endBlock()
+		},
 	}
 	for h, f := range scripts {
 		if skipHist(h) {
